@@ -152,6 +152,9 @@ func PlainInt(s string) (int64, bool) {
 		neg = true
 		t = t[1:]
 	}
+	for len(t) > 18 && t[0] == '0' {
+		t = t[1:] // leading zeros do not make a decimal integer long
+	}
 	if len(t) == 0 || len(t) > 18 {
 		return 0, false
 	}
